@@ -436,7 +436,10 @@ def _from_integer(ctx: Ctx, f: FuncInfo) -> None:
     if body != [f"{lst}.append({p} % 10)", f"{p} //= 10"]:
         ctx.violation("C09-D1", f, loops[0], f"digits are peeled by `{'; '.join(body)}`; expected append(n % 10); n //= 10")
         return
-    rets = [st for st in f.body if isinstance(st, ast.Return)]
+    rets = [st for st in f.body if isinstance(st, ast.Return) and st.value is not None]
+    if not rets or not isinstance(f.body[-1], ast.Return):
+        ctx.violation("C09-D1", f, f.body[-1], "from_integer does not return the standardisation of the digits on its main path")
+        return
     if unparse(rets[-1].value) in (f"cls.to_standard(reversed({lst}))", f"cls.to_standard({lst}[::-1])"):
         ctx.ok("C09-D1", f.where, "from_integer = standardisation of the decimal digits in reading order", loops[0], f)
     else:
